@@ -436,6 +436,12 @@ fn enum_c08(ctx: &mut Ctx, seed: u64) -> Result<(), String> {
             }
         }
         1 => {
+            // (real files, cheap: the same job also takes every *_file saver through a full disk)
+            if let Some(kind) = RealKind::of_container(base.container) {
+                if len < 3000 {
+                    realfile_fulldisk(ctx, &base, &env, kind)?;
+                }
+            }
             // single hard read error at every byte offset
             for &k in &points {
                 let mut c = base.clone();
@@ -585,6 +591,115 @@ fn realfile_truncations(ctx: &mut Ctx, base: &Case, env: &Env, prop: &str, kind:
     let _ = std::fs::remove_file(&path);
     Ok(())
 }
+/// soft RLIMIT_FSIZE around `f` (the disk-full fault for code that writes real files; SIGXFSZ is ignored process-wide)
+fn with_file_size_limit<T>(limit: u64, f: impl FnOnce() -> T) -> T {
+    unsafe {
+        libc::signal(libc::SIGXFSZ, libc::SIG_IGN);
+        let mut old = libc::rlimit { rlim_cur: 0, rlim_max: 0 };
+        libc::getrlimit(libc::RLIMIT_FSIZE, &mut old);
+        let new = libc::rlimit { rlim_cur: limit as libc::rlim_t, rlim_max: old.rlim_max };
+        libc::setrlimit(libc::RLIMIT_FSIZE, &new);
+        let r = f();
+        libc::setrlimit(libc::RLIMIT_FSIZE, &old);
+        r
+    }
+}
+/// one save through a `*_file` wrapper while no file may grow beyond `k` bytes; returns (violation, outcome)
+fn fulldisk_once(env: &Env, base: &Case, kind: RealKind, path: &std::path::Path, full: &[u8], k: usize) -> (Option<(String, String, String)>, &'static str) {
+    let password = format!("pw-{}", base.key);
+    let _ = std::fs::remove_file(path);
+    set_hooks(base);
+    arm_cpu_watchdog(EVAL_CPU_SECONDS);
+    let r = with_file_size_limit(k as u64, || simcore::guarded(|| env.subj.save_real(&env.value, path, kind, &password)));
+    arm_cpu_watchdog(0);
+    let got = std::fs::read(path).unwrap_or_default();
+    let o = |s: &str| format!("C08.realfile-full-disk.{}", s);
+    match r {
+        Err(p) => (Some((o("panic"), format!("the *_file saver panicked when the file could not grow beyond {} bytes: {} at {}", k, p.msg, p.site()), format!("{}:{}", p.site_file(), p.msg.chars().take(48).collect::<String>().replace(|c: char| c.is_ascii_digit(), "#")))), "panic"),
+        Ok(Ok(())) if k < full.len() => (Some((o("silent-success"), format!("the file could not grow beyond {} of {} bytes, yet the *_file saver returned Ok ({} bytes on disk)", k, full.len(), got.len()), "save-returned-ok".into())), "ok"),
+        Ok(Ok(())) => (None, "ok-complete"),
+        Ok(Err(_)) => {
+            if got.len() > k || got.len() > full.len() || full[..got.len()] != got[..] {
+                (Some((o("prefix"), format!("after the failed save the file holds {} bytes that are not a prefix of the fault-free file (limit {}, fault-free {} bytes)", got.len(), k, full.len()), "bytes".into())), "err")
+            } else {
+                (None, "err")
+            }
+        }
+    }
+}
+/// C08 on real files: every `*_file` saver under a full disk at every file size limit k < len
+fn realfile_fulldisk(ctx: &mut Ctx, base: &Case, env: &Env, kind: RealKind) -> Result<(), String> {
+    if env.subj.name() == "CryptoPipe" {
+        return Ok(());
+    }
+    let path = tmp_dir().join(format!("full_{}.bin", std::process::id()));
+    let password = format!("pw-{}", base.key);
+    let cfg_name = format!("realfile-full-disk-{}", kind.name());
+    set_hooks(base);
+    if let Err(e) = env.subj.save_real(&env.value, &path, kind, &password) {
+        return Err(format!("save to a real file ({}) failed: {:?}", kind.name(), e));
+    }
+    let full = std::fs::read(&path).map_err(|e| e.to_string())?;
+    let mut ks: Vec<usize> = if full.len() <= 600 { (0..full.len()).collect() } else { (0..full.len()).step_by(full.len() / 300 + 1).collect() };
+    for x in [0usize, 1, 8191, 8192, 8193, full.len().saturating_sub(1), full.len().saturating_sub(2)] {
+        if x < full.len() {
+            ks.push(x);
+        }
+    }
+    ks.sort();
+    ks.dedup();
+    for k in ks {
+        if ctx.trace {
+            let mut c = base.clone();
+            c.config = cfg_name.clone();
+            c.media = vec![MediaOp::Cut(k as u64)];
+            let cj = c.to_json();
+            ctx.journal.line(&format!("EVAL {}", json!({"realfile": true, "cut": k, "prop": "C08", "case": cj})));
+        }
+        let (viol, outcome) = fulldisk_once(env, base, kind, &path, &full, k);
+        ctx.stats.inc("evals");
+        ctx.stats.inc(&format!("config.{}", cfg_name));
+        ctx.stats.inc("fired.disk-full");
+        ctx.stats.inc("evals_with_fault_fired");
+        ctx.stats.inc(&format!("outcome.{}", outcome));
+        ctx.stats.sig(format!("{}|{}|{}|disk-full|{}|{}", cfg_name, base.subject, base.container.name(), if k < 16 { "header" } else { "body" }, outcome));
+        if let Some((oracle, detail, site)) = viol {
+            ctx.viol_count += 1;
+            ctx.stats.inc("violations_raw");
+            let key = format!("{}|{}|{}", oracle, site, kind.name());
+            if ctx.seen_sigs.insert(key) && ctx.stats.violations.len() < 40 {
+                let mut c = base.clone();
+                c.config = cfg_name.clone();
+                c.media = vec![MediaOp::Cut(k as u64)];
+                ctx.stats.violations.push(json!({
+                    "job": ctx.job, "oracle": oracle, "detail": detail,
+                    "signature": {"oracle": oracle, "engine": "simio", "container": format!("{}(real file)", kind.name()), "wrappers": base.container.wrappers(), "fault_kind": "disk-full", "region": if k < 16 { "header" } else { "body" }, "site": site, "type_class": base.subject},
+                    "case": c.to_json(), "log_hash": "-",
+                }));
+            }
+        }
+    }
+    let _ = std::fs::remove_file(&path);
+    Ok(())
+}
+/// replay of a real-file full-disk case
+fn exec_realfile_full(case: &Case) -> Result<(Option<(String, String)>, &'static str), String> {
+    let env = prepare(case)?;
+    let path = tmp_dir().join(format!("replay_full_{}.bin", std::process::id()));
+    let kind = RealKind::from_config(&case.config);
+    let password = format!("pw-{}", case.key);
+    set_hooks(case);
+    env.subj.save_real(&env.value, &path, kind, &password).map_err(|e| format!("{:?}", e))?;
+    let full = std::fs::read(&path).map_err(|e| e.to_string())?;
+    let k = match case.media.first() {
+        Some(MediaOp::Cut(k)) => (*k as usize).min(full.len()),
+        _ => full.len(),
+    };
+    let (v, outcome) = fulldisk_once(&env, case, kind, &path, &full, k);
+    let _ = std::fs::remove_file(&path);
+    Ok((v.map(|(o, d, _)| (o, d)), outcome))
+}
+
 fn tmp_dir() -> std::path::PathBuf {
     let d = std::env::var("SIM_TMP").unwrap_or_else(|_| "/verif/.work/tmp".to_string());
     let p = std::path::PathBuf::from(d);
@@ -1288,8 +1403,8 @@ fn main() {
             let v: Value = serde_json::from_str(&std::fs::read_to_string(path).expect("read")).expect("json");
             let cv = if v.get("case").is_some() { v["case"].clone() } else { v.clone() };
             let case = Case::from_json(&cv);
-            if case.config.starts_with("realfile-truncate") {
-                match exec_realfile(&case) {
+            if case.config.starts_with("realfile-truncate") || case.config.starts_with("realfile-full-disk") {
+                match if case.config.starts_with("realfile-full-disk") { exec_realfile_full(&case) } else { exec_realfile(&case) } {
                     Ok((Some((oracle, detail)), outcome)) => {
                         println!("{}", json!({"verdict": "violation", "oracle": oracle, "detail": detail, "outcome": outcome, "log_hash": "-"}));
                         std::process::exit(1);
